@@ -289,6 +289,9 @@ func init() {
 			g.ft.Objects, g.ft.Soft = true, true
 			g.ft.GroupDecs = false
 			g.ft.NT = g.r.Range(2, 4)
+			if g.r.Intn(3) == 0 {
+				g.tmpl = (*genCtx).tmplSoftMix
+			}
 		}, Mix{Scope: 2, Provide: 12, Decorate: 1, Invoke: 10, VisStr: 0}),
 		Eval: evalSimple("C11", func(c *Checked) bool {
 			return c.Probes["soft_nonempty"] > 0 || c.Probes["soft_sibling_field_feeder"] > 0
